@@ -17,7 +17,7 @@ PROPS = {}
 # properties not claimed (yet or ever), with the one-line reason that goes into MANIFEST.not_applicable
 _WIP = "check not built yet in this round (planned, see DESIGN.md section 5)"
 NOT_APPLICABLE = {
-    "C01": _WIP, "C02": _WIP, "C04": _WIP, "C05": _WIP, "C06": _WIP, "C07": _WIP, "C09": _WIP, "C10": _WIP,
+    "C01": _WIP, "C02": _WIP, "C04": _WIP, "C05": _WIP, "C06": _WIP, "C07": _WIP, "C09": _WIP,
     "C11": _WIP, "C12": _WIP, "C13": _WIP, "C14": _WIP, "C15": _WIP,
     "C03": "accept/reject and AST construction live in a proc-macro-generated PEG parser over `str`; Verus cannot reason about str/macro output and Kani cannot carry a symbolic text past the mandatory header, so no contract within reach states 'accepts exactly this language'",
     "C16": "composes core::fmt/pad string formatting with the pest parser over all ASTs; both halves are str-level and outside what Verus accepts or Kani can bound meaningfully",
@@ -37,4 +37,22 @@ PROPS["C08"] = {
     ],
     "trusted": [],
     "assumptions": ["carry-out of A / NOR / ZERO (not given by the statement) is characterised from the pinned tree as 0"],
+}
+
+ST_BOARD = ("emulator-2a-lib/src/machine/board.rs", "st_board.rs", "verif_st_board")
+ST_BUS = ("emulator-2a-lib/src/machine/bus.rs", "st_bus.rs", "verif_st_bus")
+
+PROPS["C10"] = {
+    "inject": [ST_BOARD, ST_BUS, ("emulator-2a-lib/src/machine/bus.rs", "c10_bus.rs", "verif_c10")],
+    "functions": ["machine::bus::Bus::write", "machine::bus::Bus::read", "Bus::input_fc/fd/fe/ff", "Bus::cpu_reset / master_reset (RAM frame)", "Bus::get_level_interrupt / take_edge_interrupt (RAM frame)"],
+    "timeout": 600,
+    "technique": "function contracts (postcondition + whole-state frame) on Bus::write / Bus::read / input setters over a fully symbolic Bus, discharged by Kani/CBMC",
+    "level_text": "Proof: per-call postcondition and whole-bus frame equality for every address x byte over a fully symbolic bus state (240 symbolic RAM bytes, all registers, whole board); loop-free, complete. 'Until overwritten' follows by induction from the RAM frame of every mutator.",
+    "level_note": "Trusted: Kani/CBMC, rustc, bus_ref (address map transcribed from the Bus doc comment and the property statement). What the board does with a port write is C14's contract; C10 only proves the write reaches the port and nothing outside the board moves.",
+    "samples": [
+        {"obligation": "C10.W.ram.frame", "text": "addr<=0xEF ==> write(addr,byte) yields exactly old[ram[addr]:=byte] (every other field bit-identical)", "domain": "symbolic Bus x 240 addresses x 256 bytes"},
+        {"obligation": "C10.W.io.ram-untouched", "text": "addr>=0xF0 ==> ram' == ram", "domain": "symbolic"},
+    ],
+    "trusted": [],
+    "assumptions": [],
 }
